@@ -57,6 +57,17 @@ static J run_format(const J& c)
             for (auto& a : args)
                 f % a;
         }
+        else if (via == "copy")
+        {
+            // a copy made half way keeps the arguments given so far and is completed on its own
+            std::size_t half = args.size() / 2;
+            for (std::size_t k = 0; k < half; k++)
+                f % args[k];
+            auto g = f;
+            for (std::size_t k = half; k < args.size(); k++)
+                g % args[k];
+            f = g;
+        }
         else
         {
             switch (args.size())
@@ -185,6 +196,8 @@ static J run(const J& c)
             o.set("out_iter", J::bytes(nitro::lang::join(elems.begin(), elems.end(), infix)));
             if (infix == " ")
                 o.set("out_default", J::bytes(nitro::lang::join(elems)));
+            std::list<std::string> l(elems.begin(), elems.end());
+            o.set("out_list", J::bytes(nitro::lang::join(l.begin(), l.end(), infix)));
         });
     }
     if (op == "starts")
